@@ -1,0 +1,247 @@
+//! Verification hooks (cargo feature `verif`, off by default).
+//!
+//! Stand-ins for the shared-state types used by the fan-in operators (`merge!`, `combine!`) and
+//! by `take`. Every access first calls [`point`], which forwards to a process-global callback
+//! installed by a controlled scheduler, then performs the access on the real `std` / `arc_swap`
+//! type. With no callback installed the stand-ins behave exactly like the types they wrap.
+//!
+//! The operators bring these names into scope with a block-scope `use` at the top of their
+//! subscription body, so the operator code itself is unchanged.
+
+use arc_swap::{Guard, RefCnt};
+use std::sync::{
+    atomic::{self, Ordering},
+    Arc, OnceLock,
+};
+
+/// Kind of shared-state access about to be performed.
+#[derive(Clone, Copy, Debug, PartialEq, Eq, Hash)]
+pub enum Access {
+    /// The access only reads the object.
+    Load,
+    /// The access writes (or reads and writes) the object.
+    Store,
+}
+
+type Hook = Box<dyn Fn(usize, Access) + Send + Sync>;
+
+static HOOK: OnceLock<Hook> = OnceLock::new();
+
+/// Install the process-global scheduler callback. Returns `false` if one was already installed.
+pub fn set_hook<F>(hook: F) -> bool
+where
+    F: Fn(usize, Access) + Send + Sync + 'static,
+{
+    HOOK.set(Box::new(hook)).is_ok()
+}
+
+/// Called before every access to an instrumented object.
+#[inline]
+pub fn point(addr: usize, access: Access) {
+    if let Some(hook) = HOOK.get() {
+        hook(addr, access);
+    }
+}
+
+macro_rules! addr {
+    ($self:ident) => {
+        $self as *const Self as usize
+    };
+}
+
+/// Instrumented stand-in for [`std::sync::atomic::AtomicBool`].
+#[derive(Debug, Default)]
+pub struct AtomicBool(atomic::AtomicBool);
+
+impl AtomicBool {
+    pub fn new(v: bool) -> Self {
+        Self(atomic::AtomicBool::new(v))
+    }
+
+    pub fn load(&self, order: Ordering) -> bool {
+        point(addr!(self), Access::Load);
+        self.0.load(order)
+    }
+
+    pub fn store(&self, v: bool, order: Ordering) {
+        point(addr!(self), Access::Store);
+        self.0.store(v, order)
+    }
+
+    pub fn swap(&self, v: bool, order: Ordering) -> bool {
+        point(addr!(self), Access::Store);
+        self.0.swap(v, order)
+    }
+
+    pub fn compare_exchange(
+        &self,
+        current: bool,
+        new: bool,
+        success: Ordering,
+        failure: Ordering,
+    ) -> Result<bool, bool> {
+        point(addr!(self), Access::Store);
+        self.0.compare_exchange(current, new, success, failure)
+    }
+
+    pub fn fetch_or(&self, v: bool, order: Ordering) -> bool {
+        point(addr!(self), Access::Store);
+        self.0.fetch_or(v, order)
+    }
+
+    pub fn fetch_and(&self, v: bool, order: Ordering) -> bool {
+        point(addr!(self), Access::Store);
+        self.0.fetch_and(v, order)
+    }
+}
+
+/// Instrumented stand-in for [`std::sync::atomic::AtomicUsize`].
+#[derive(Debug, Default)]
+pub struct AtomicUsize(atomic::AtomicUsize);
+
+impl AtomicUsize {
+    pub fn new(v: usize) -> Self {
+        Self(atomic::AtomicUsize::new(v))
+    }
+
+    pub fn load(&self, order: Ordering) -> usize {
+        point(addr!(self), Access::Load);
+        self.0.load(order)
+    }
+
+    pub fn store(&self, v: usize, order: Ordering) {
+        point(addr!(self), Access::Store);
+        self.0.store(v, order)
+    }
+
+    pub fn swap(&self, v: usize, order: Ordering) -> usize {
+        point(addr!(self), Access::Store);
+        self.0.swap(v, order)
+    }
+
+    pub fn fetch_add(&self, v: usize, order: Ordering) -> usize {
+        point(addr!(self), Access::Store);
+        self.0.fetch_add(v, order)
+    }
+
+    pub fn fetch_sub(&self, v: usize, order: Ordering) -> usize {
+        point(addr!(self), Access::Store);
+        self.0.fetch_sub(v, order)
+    }
+
+    pub fn compare_exchange(
+        &self,
+        current: usize,
+        new: usize,
+        success: Ordering,
+        failure: Ordering,
+    ) -> Result<usize, usize> {
+        point(addr!(self), Access::Store);
+        self.0.compare_exchange(current, new, success, failure)
+    }
+
+    /// Like the `std` method, but one scheduling point per load / compare-exchange attempt.
+    pub fn fetch_update<F>(
+        &self,
+        set_order: Ordering,
+        fetch_order: Ordering,
+        mut f: F,
+    ) -> Result<usize, usize>
+    where
+        F: FnMut(usize) -> Option<usize>,
+    {
+        let mut prev = self.load(fetch_order);
+        while let Some(next) = f(prev) {
+            match self.compare_exchange(prev, next, set_order, fetch_order) {
+                x @ Ok(_) => return x,
+                Err(next_prev) => prev = next_prev,
+            }
+        }
+        Err(prev)
+    }
+}
+
+/// Instrumented stand-in for [`arc_swap::ArcSwapAny`].
+pub struct ArcSwapAny<T: RefCnt>(arc_swap::ArcSwapAny<T>);
+
+/// Instrumented stand-in for [`arc_swap::ArcSwap`].
+pub type ArcSwap<T> = ArcSwapAny<Arc<T>>;
+
+/// Instrumented stand-in for [`arc_swap::ArcSwapOption`].
+pub type ArcSwapOption<T> = ArcSwapAny<Option<Arc<T>>>;
+
+impl<T: RefCnt> ArcSwapAny<T> {
+    pub fn new(val: T) -> Self {
+        Self(arc_swap::ArcSwapAny::new(val))
+    }
+
+    pub fn load(&self) -> Guard<T> {
+        point(addr!(self), Access::Load);
+        self.0.load()
+    }
+
+    pub fn load_full(&self) -> T {
+        point(addr!(self), Access::Load);
+        self.0.load_full()
+    }
+
+    pub fn store(&self, val: T) {
+        point(addr!(self), Access::Store);
+        self.0.store(val)
+    }
+
+    pub fn swap(&self, val: T) -> T {
+        point(addr!(self), Access::Store);
+        self.0.swap(val)
+    }
+
+    pub fn compare_and_swap(&self, current: &T, new: T) -> Guard<T> {
+        point(addr!(self), Access::Store);
+        self.0.compare_and_swap(current, new)
+    }
+
+    /// Read-copy-update with the same retry loop as [`arc_swap::ArcSwapAny::rcu`], one scheduling
+    /// point before the initial load and one before every compare-and-swap attempt.
+    pub fn rcu<R, F>(&self, mut f: F) -> T
+    where
+        F: FnMut(&T) -> R,
+        R: Into<T>,
+    {
+        let mut cur = self.load_full();
+        loop {
+            let new = f(&cur).into();
+            let prev = Guard::into_inner(self.compare_and_swap(&cur, new));
+            let swapped = RefCnt::as_ptr(&cur) == RefCnt::as_ptr(&prev);
+            if swapped {
+                return prev;
+            } else {
+                cur = prev;
+            }
+        }
+    }
+}
+
+impl<T> ArcSwapAny<Arc<T>> {
+    pub fn from_pointee(val: T) -> Self {
+        Self::new(Arc::new(val))
+    }
+}
+
+impl<T: RefCnt> From<T> for ArcSwapAny<T> {
+    fn from(val: T) -> Self {
+        Self::new(val)
+    }
+}
+
+impl<T: RefCnt + Default> Default for ArcSwapAny<T> {
+    fn default() -> Self {
+        Self::new(T::default())
+    }
+}
+
+impl<T: RefCnt + std::fmt::Debug> std::fmt::Debug for ArcSwapAny<T> {
+    fn fmt(&self, f: &mut std::fmt::Formatter<'_>) -> std::fmt::Result {
+        // deliberately not a scheduling point
+        self.0.fmt(f)
+    }
+}
